@@ -19,8 +19,11 @@ RootIff(c) ==
   /\ Meets(c.sigs, c.t.rk, c.t.rt, TRUE)
   /\ Meets(c.sigs, c.n.rk, c.n.rt, TRUE)
 
+(* an entry filed under something that is not a key but carrying a well-formed value: whether the schema *)
+(* tolerates such names is unspecified (C14), so a TypeError/ValueError is allowed as well               *)
+HasNonKeyName(c) == \E n \in AltNames \cup JunkNames : c.sigs[n].shape # "absent"
 Allowed(c) ==
-  IF RootIff(c) THEN {"accept"}
+  IF RootIff(c) THEN (IF HasNonKeyName(c) THEN {"accept"} \cup ArgFamilies ELSE {"accept"})
   ELSE IF ~(WF(c.t) /\ WF(c.n)) THEN ArgFamilies
   ELSE IF ~BothRoot(c) THEN DocFamilies         \* "not root type": any documented family
   ELSE IF ~HasRules(c) THEN DocFamilies         \* the checker does not demand a root rule (D4): any documented family
